@@ -78,6 +78,7 @@ class World:
         self.tx_active = []
         self.airlog = []
         self.fault = None  # callable(pkt) -> True if the packet is lost for everybody
+        self.phantom_ack = None  # callable(pkt) -> True: an (unmodelled) listener acknowledges this data packet
         self.horizon = horizon_ns
         self.ctxs = []
         self.cur = None  # ctx holding the baton (threaded mode)
@@ -753,12 +754,23 @@ class SimRadio:
             if not self.prx() and self.pwr():
                 ard = ((self.r[0x04] >> 4) + 1) * 250 * US
                 self.timer = self.w.at(self.w.now + ard, self, "_ack_timeout")
+                w = self.w
+                if (w.phantom_ack is not None and not pkt.lost and not pkt.collided and not pkt.heard_by
+                        and (self.r[0x02] & 1) and self.pipe_addr(0) == pkt.addr and w.phantom_ack(pkt)):
+                    self.phantom_ev = w.at(w.now + T_SETTLE + self.airtime(0), self, "_phantom_ack_rx", pkt)
             else:  # role changed while the packet was on the air
                 self.in_txn = False
                 self._set_state("stby")
                 self._reeval()
         elif not need_ack:
             self._complete_tx(pkt, None)
+
+    def _phantom_ack_rx(self, pkt):
+        if self.state == "ack_wait" and self.cur_pkt is pkt:
+            self._cancel_timer()
+            pkt.acked = True
+            pkt.heard_by.append("phantom")
+            self._complete_tx(pkt, b"")
 
     def _complete_tx(self, pkt, ackpl):
         if self.tx_fifo and self.tx_fifo[0].pid == pkt.pid and self.tx_fifo[0].data == pkt.payload:
@@ -1031,7 +1043,11 @@ def ghost_sender(world, name, channel=76, rate=1000, crc=2, aw=5, en_aa=0x3F, dy
 
 
 def ghost_send(ghost, addr, payload, noack=False):
-    """queue one payload on a ghost sender and start transmitting it now"""
+    """queue one payload on a ghost sender and start transmitting it now
+    (a stale, never-acknowledged payload of an earlier call is discarded first)"""
+    if ghost.in_txn or ghost.state in ("tx", "tx_settle", "ack_wait"):
+        raise HarnessError("ghost sender is still busy")
+    ghost.tx_fifo.clear()
     ghost.r[0x07] &= ~0x30
     ghost.a[0x10][:len(addr)] = addr
     ghost.a[0x0A][:len(addr)] = addr
